@@ -10,13 +10,15 @@ EXPLANATION = ('(1) sibling agreement: the progress variants have the same loop 
                'k == total-1 with total the trip count, the reporter leaves its loop when n_finished >= number of channels and counts a chain as finished under stats.n == total; '
                '(5) the two reporter closures (core.rs, nuts.rs) are structurally identical; (6) no dtype-checked TensorData accessor whose element type is not syntactically the '
                'data\'s dtype reaches unwrap/expect. Termination under every interleaving is a liveness property and is NOT decided (the obligations in 4 are necessary, not sufficient).')
-FLOORS = {'obligations': 36}   # counted on the reference tree; fewer instantiated obligations is reported, never passed silently
+FLOORS = {'obligations': 41}   # counted on the reference tree; fewer instantiated obligations is reported, never passed silently
 TECHNIQUE = 'sibling loop-summary agreement, result-discipline and typestate (TensorData dtype) analysis, structural equivalence of the reporter closures'
 SEND = 'std::sync::mpsc::Sender::send'
 
 
 def run(ctx):
     nc, nd = S('n_collect'), S('n_discard')
+    from .. import frame
+    frame.std_impls_derived(ctx, 'C10', ['stats::ChainTracker', 'stats::ChainStats', 'stats::MultiChainTracker', 'stats::RunStats', 'stats::BasicStats'])
     core_worker(ctx, nc, nd)
     nuts_worker(ctx, nc, nd)
     hmc_progress(ctx, nc, nd)
